@@ -34,8 +34,206 @@ RO_REWRITES = ['flip_obj', 'decl_order', 'row_form', 'split_eq', 'xbound_form', 
                'vectorize', 'devectorize']
 
 
+BSHAPES = ['scalar', 'row', 'row2', 'col', 'full']
+BFORMS = ['obj', 'neg', 'row', 'loop', 'rowloop', 'abs', 'sparse']
+
+
+def _bshape(rng, n, m, kind, lo, hi):
+    if kind == 'scalar':
+        return float(np.round(rng.uniform(lo, hi), 1))
+    shp = {'row': (m,), 'row2': (1, m), 'col': (n, 1), 'full': (n, m)}[kind]
+    return np.round(rng.uniform(lo, hi, shp), 1).tolist()
+
+
+def gen_matrix(rng, tier):
+    n, m = int(rng.integers(2, 5)), int(rng.integers(2, 5))
+    if rng.random() < 0.25:
+        m = n                              # square: a transposed broadcast would go unnoticed less
+    sp = {'n': n, 'm': m, 'front': ['ro', 'dro'][int(rng.random() < 0.3)],
+          'sense': ['min', 'max'][int(rng.integers(2))],
+          'C': np.round(rng.uniform(-2, 2, (n, m)), 1).tolist(),
+          'lo': _bshape(rng, n, m, BSHAPES[int(rng.integers(5))], -3, -0.5),
+          'hi': _bshape(rng, n, m, BSHAPES[int(rng.integers(5))], 0.5, 3),
+          'robust': bool(rng.random() < 0.5),
+          'zlo': _bshape(rng, n, m, BSHAPES[int(rng.integers(5))], -1, -0.1),
+          'zhi': _bshape(rng, n, m, BSHAPES[int(rng.integers(5))], 0.1, 1),
+          'W': np.round(rng.uniform(-1, 1, (int(rng.integers(0, 3)), n, m)), 1).tolist(),
+          'slack': float(np.round(rng.uniform(0.2, 1.5), 1))}
+    if rng.random() < 0.3:                 # symmetric bounds so that the abs form applies
+        sp['lo'] = (-np.asarray(sp['hi'])).tolist()
+    if rng.random() < 0.3:
+        sp['zlo'] = (-np.asarray(sp['zhi'])).tolist()
+    nv = 5 if tier == 'quick' else 8
+    sp['variants'] = [{'x': [BFORMS[int(rng.integers(len(BFORMS)))] for _ in range(2)],
+                       'z': [BFORMS[int(rng.integers(len(BFORMS)))] for _ in range(2)],
+                       'flip': bool(rng.random() < 0.3)} for _ in range(nv)]
+    return {'kind': 'matrix', 'spec': sp}
+
+
+def _bound(v, b, side, form, n, m, sym=False):
+    """constraints saying v >= b (side 'L') or v <= b (side 'U') in the given spelling; b keeps
+    the user's broadcastable shape."""
+    import scipy.sparse as sps
+    import rsome as rso
+    bb = np.asarray(b, float)
+    full = np.broadcast_to(bb, (n, m))
+    b = bb if bb.ndim else float(bb)
+    if form == 'abs' and not (side == 'U' and sym):
+        form = 'obj'                       # |v| <= b says the same only for symmetric bounds
+    if form == 'sparse' and bb.shape != (n, m):
+        form = 'obj'                       # scipy sparse matrices do not broadcast
+    if form == 'obj':
+        return [v >= b] if side == 'L' else [v <= b]
+    if form == 'sparse':
+        sb = sps.csr_matrix(bb)
+        return [v >= sb] if side == 'L' else [v <= sb]
+    if form == 'neg':
+        return [-v <= -bb] if side == 'L' else [-v >= -bb]
+    if form == 'row':
+        return [v - bb >= 0] if side == 'L' else [bb - v >= 0]
+    if form == 'loop':
+        return [(v[i, j] >= float(full[i, j])) if side == 'L' else (v[i, j] <= float(full[i, j]))
+                for i in range(n) for j in range(m)]
+    if form == 'rowloop':
+        return [(v[i] >= full[i]) if side == 'L' else (v[i] <= full[i]) for i in range(n)]
+    if form == 'abs':
+        return [abs(v) <= full]
+    raise ValueError(form)
+
+
+def _matrix_reference(sp):
+    from scipy.optimize import linprog
+    n, m = sp['n'], sp['m']
+    N = n * m
+    Cm = np.asarray(sp['C'], float).reshape(-1)
+    sg = 1.0 if sp['sense'] == 'min' else -1.0
+    lo = np.broadcast_to(np.asarray(sp['lo'], float), (n, m)).reshape(-1)
+    hi = np.broadcast_to(np.asarray(sp['hi'], float), (n, m)).reshape(-1)
+    zlo = np.broadcast_to(np.asarray(sp['zlo'], float), (n, m)).reshape(-1)
+    zhi = np.broadcast_to(np.asarray(sp['zhi'], float), (n, m)).reshape(-1)
+    W = np.asarray(sp['W'], float).reshape(-1, N) if len(sp['W']) else np.zeros((0, N))
+    x0 = 0.5 * (lo + hi)
+    # min over X of  sg*C.X + sum_ij max_z (z_ij X_ij)   [worst case of sg*(C+Z).X for min;
+    # for max the adversary minimises, i.e. maximises -(C+Z).X = sg*C.X + (-z).X]
+    c = np.concatenate([sg * Cm, np.ones(N) if sp['robust'] else np.zeros(N)])
+    A, b = [], []
+    for k in range(len(W)):
+        A.append(np.concatenate([-W[k], np.zeros(N)]))
+        b.append(-(W[k] @ x0 - sp['slack']))
+    if sp['robust']:
+        for j in range(N):
+            for zb in (zlo[j], zhi[j]):
+                r = np.zeros(2 * N)
+                r[j] = sg * zb
+                r[N + j] = -1.0
+                A.append(r)
+                b.append(0.0)
+    res = linprog(c, A_ub=np.array(A) if A else None, b_ub=np.array(b) if b else None,
+                  bounds=[(lo[j], hi[j]) for j in range(N)] + [(None, None)] * N
+                  if sp['robust'] else [(lo[j], hi[j]) for j in range(N)] + [(0, 0)] * N,
+                  method='highs')
+    return sg * res.fun if res.status == 0 else None
+
+
+def _matrix_value(sp, v):
+    from rsome import ro, dro
+    import rsome as rso
+    n, m = sp['n'], sp['m']
+    front = sp['front']
+    mod = ro.Model() if front == 'ro' else dro.Model(1)
+    X = mod.dvar((n, m))
+    Cm = np.asarray(sp['C'], float)
+    sense = sp['sense']
+    sg = 1.0
+    if v is not None and v.get('flip'):
+        sense = 'max' if sense == 'min' else 'min'
+        sg = -1.0
+    fx, fz = (v['x'], v['z']) if v is not None else (['obj', 'obj'], ['obj', 'obj'])
+    if front == 'dro':
+        # a dro decision variable compared with a sparse matrix is refused loudly by st()
+        fx = ['obj' if f == 'sparse' else f for f in fx]
+    lo = np.broadcast_to(np.asarray(sp['lo'], float), (n, m))
+    hi = np.broadcast_to(np.asarray(sp['hi'], float), (n, m))
+    x0 = 0.5 * (lo + hi)
+    if sp['robust']:
+        Z = mod.rvar((n, m))
+        zsym = bool(np.array_equal(-np.asarray(sp['zlo'], float), np.asarray(sp['zhi'], float)))
+        zset = _bound(Z, sp['zlo'], 'L', fz[0], n, m) + \
+            _bound(Z, sp['zhi'], 'U', fz[1], n, m, sym=zsym)
+        obj = sg * ((Cm * X).sum() + (X * Z).sum())
+        if front == 'ro':
+            (mod.minmax if sense == 'min' else mod.maxmin)(obj, zset)
+        else:
+            fs = mod.ambiguity()
+            fs.suppset(*zset)
+            (mod.minsup if sense == 'min' else mod.maxinf)(rso.E(obj), fs)
+    else:
+        obj = sg * (Cm * X).sum()
+        (mod.min if sense == 'min' else mod.max)(obj)
+    mod.st(_bound(X, sp['lo'], 'L', fx[0], n, m))
+    xsym = bool(np.array_equal(-np.asarray(sp['lo'], float), np.asarray(sp['hi'], float)))
+    mod.st(_bound(X, sp['hi'], 'U', fx[1], n, m, sym=xsym))
+    for Wk in sp['W']:
+        Wk = np.asarray(Wk, float)
+        mod.st((Wk * X).sum() >= float((Wk * x0).sum() - sp['slack']))
+    C.solve(mod, 'def')
+    if not C.optimal(mod):
+        return ('failed', str(getattr(mod.solution, 'status', None)))
+    return ('optimal', sg * float(mod.get()))
+
+
+def run_matrix(spec, ctx):
+    sp = spec['spec']
+    ref = _matrix_reference(sp)
+    if ref is None:
+        return {'status': 'skip', 'reason': 'reference LP not solved'}
+    detail = []
+    forms = set()
+    try:
+        r0 = _matrix_value(sp, None)
+    except Exception as e:
+        ctx.count('rsome_raises_base:' + type(e).__name__)
+        return {'status': 'skip', 'reason': 'base matrix model raises: %s: %s'
+                % (type(e).__name__, str(e)[:60])}
+    tol = 1e-6 * (1 + abs(ref))
+    if r0[0] != 'optimal' or abs(r0[1] - ref) > tol:
+        detail.append({'what': 'bound objects with broadcast bounds: optimum differs from the '
+                       'reference LP', 'rewrite': {'forms': 'obj'}, 'got': r0, 'reference': ref})
+    for v in sp['variants']:
+        try:
+            rv_ = _matrix_value(sp, v)
+        except Exception as e:
+            ctx.count('matrix_form_raises:%s' % type(e).__name__)
+            detail.append({'what': 'rewrite raises while the base model solves',
+                           'rewrite': {'forms': v}, 'error': '%s: %s' % (type(e).__name__,
+                                                                          str(e)[:80])})
+            continue
+        ctx.count('rewrites_compared')
+        forms |= set(v['x']) | (set(v['z']) if sp['robust'] else set())
+        if rv_[0] != 'optimal' or abs(rv_[1] - ref) > tol:
+            detail.append({'what': 'rewrite changes the optimum', 'rewrite': {'forms': v},
+                           'rewritten': rv_, 'reference': ref, 'base': r0})
+
+    def kind(b):
+        a = np.asarray(b)
+        return 'scalar' if a.ndim == 0 else 'x'.join(str(1 if s == 1 else 'k') for s in a.shape)
+    feats = {'class': 'matrix', 'front': sp['front'], 'robust': sp['robust'],
+             'bshapes': sorted({kind(sp['lo']), kind(sp['hi'])} |
+                               ({kind(sp['zlo']), kind(sp['zhi'])} if sp['robust'] else set())),
+             'forms': sorted(forms)}
+    sig = '|'.join('%s=%s' % (k, feats[k]) for k in sorted(feats))
+    if detail:
+        d = detail[0]
+        return {'status': 'violation', 'mechanism': 'matrix:%s' % d['what'][:40],
+                'detail': detail[:3], 'features': feats, 'sig': sig, 'nontrivial': True}
+    return {'status': 'held', 'features': feats, 'sig': sig, 'nontrivial': abs(ref) > 1e-6,
+            'observed': {'base': r0[1], 'reference': ref}}
+
+
 def gen_case(rng, idx, tier):
     nrew = 4 if tier == 'quick' else 6
+    if rng.random() < 0.2:
+        return gen_matrix(rng, tier)
     if rng.random() < 0.7:
         spec = R.gen(rng, tier)
         vs = []
@@ -88,6 +286,8 @@ def solve_value(B, sname):
 def run_case(spec, ctx):
     import copy
     kind = spec['kind']
+    if kind == 'matrix':
+        return run_matrix(spec, ctx)
     base = spec['spec']
     try:
         B0 = R.build(base) if kind == 'ro' else D.build(base)
